@@ -1,14 +1,14 @@
 import Leantest.WfIndex
 import Leantest.BedQueryBytes
 /-! Probe (C09/C10, bigBed twin of `CheckedFile`): any bigBed image whose index passes `walk` and whose leaf
-    blocks pass `checkBedBlock` is answered by the READER exactly as the decoded content says, for every
+    blocks pass `checkBedLeaf` is answered by the READER exactly as the decoded content says, for every
     chromosome and range — and the reader's chromosome assertion cannot fire. -/
 namespace BBI
 open RT CD
 
 /-- independent decoding of one leaf's block with the certificate's checks: records decode, all on the
     leaf's single chromosome, all inside the span the index records -/
-def checkBedBlock (l : List Nat) (x : Sec) : Option (List Entry) :=
+def checkBedLeaf (l : List Nat) (x : Sec) : Option (List Entry) :=
   if x.lo.c ≠ x.hi.c then none else
   match decEntries (x.size + 1) ((l.drop x.off).take x.size) with
   | .error _ => none
@@ -16,13 +16,13 @@ def checkBedBlock (l : List Nat) (x : Sec) : Option (List Entry) :=
     if recs.all (fun r => decide (r.1 = x.lo.c) && decide (x.lo.b ≤ r.2.s) && decide (r.2.e ≤ x.hi.b))
     then some (recs.map (·.2)) else none
 
-def bedItemsOf (l : List Nat) (x : Sec) : List Entry := (checkBedBlock l x).getD []
+def bedItemsOf (l : List Nat) (x : Sec) : List Entry := (checkBedLeaf l x).getD []
 
-theorem bed_block_consistent (l : List Nat) (x : Sec) (items : List Entry) (h : checkBedBlock l x = some items)
+theorem bed_block_consistent (l : List Nat) (x : Sec) (items : List Entry) (h : checkBedLeaf l x = some items)
     (qs qe : Nat) :
     bedBlock l ⟨x.off, x.size⟩ x.lo.c qs qe = .ok (items.filter (bedKeep qs qe)) ∧
     x.lo.c = x.hi.c ∧ ∀ v ∈ items, x.lo.b ≤ v.s ∧ v.e ≤ x.hi.b := by
-  unfold checkBedBlock at h
+  unfold checkBedLeaf at h
   split at h; · cases h
   rename_i hcc
   cases hd : decEntries (x.size + 1) ((l.drop x.off).take x.size) with
@@ -64,7 +64,7 @@ theorem leaf_other_chrom_not_ov (x : Sec) (hcc : x.lo.c = x.hi.c) (c qs qe : Nat
     simp only [Pos.le] at this; omega
 
 theorem goBedBlocks_checked (l : List Nat) (c qs qe : Nat) : ∀ (xs : List Sec),
-    (∀ x ∈ xs, ∃ items, checkBedBlock l x = some items) → (∀ x ∈ xs, x.lo.c = c) →
+    (∀ x ∈ xs, ∃ items, checkBedLeaf l x = some items) → (∀ x ∈ xs, x.lo.c = c) →
     goBedBlocks l c qs qe (blocksOf xs) = .ok (xs.flatMap fun x => (bedItemsOf l x).filter (bedKeep qs qe)) := by
   intro xs
   induction xs with
@@ -80,7 +80,7 @@ theorem goBedBlocks_checked (l : List Nat) (c qs qe : Nat) : ∀ (xs : List Sec)
     rw [hb, this]
     simp [bedItemsOf, hi]
 
-theorem bed_pruned_checked (l : List Nat) (x : Sec) (items : List Entry) (h : checkBedBlock l x = some items)
+theorem bed_pruned_checked (l : List Nat) (x : Sec) (items : List Entry) (h : checkBedLeaf l x = some items)
     (c qs qe : Nat) (hc : x.lo.c = c) (hov : ov ⟨c, qs⟩ ⟨c, qe⟩ x.lo x.hi = false) :
     items.filter (bedKeep qs qe) = [] := by
   obtain ⟨_, hcc, hw⟩ := bed_block_consistent l x items h qs qe
@@ -97,7 +97,7 @@ theorem bed_pruned_checked (l : List Nat) (x : Sec) (items : List Entry) (h : ch
   omega
 
 theorem bed_via_index_checked (l : List Nat) (c qs qe : Nat) : ∀ (xs : List Sec),
-    (∀ x ∈ xs, ∃ items, checkBedBlock l x = some items) →
+    (∀ x ∈ xs, ∃ items, checkBedLeaf l x = some items) →
     ((xs.filter fun x => ov ⟨c, qs⟩ ⟨c, qe⟩ x.lo x.hi).flatMap fun x => (bedItemsOf l x).filter (bedKeep qs qe)) =
       ((xs.filter fun x => x.lo.c = c).flatMap (bedItemsOf l)).filter (bedKeep qs qe) := by
   intro xs
@@ -122,7 +122,7 @@ theorem bed_via_index_checked (l : List Nat) (c qs qe : Nat) : ∀ (xs : List Se
 /-- **C09/C10 (bigBed): an accepted file is read as decoded; the chromosome assertion cannot fire.** -/
 theorem checked_bed_query (l : List Nat) (bs fuel off : Nat) (expect : Option Span) (t : T)
     (hwalk : walk .little (srcOf l) bs fuel off expect = .ok t)
-    (hblocks : ∀ x ∈ leaves t, ∃ items, checkBedBlock l x = some items) (c qs qe : Nat) :
+    (hblocks : ∀ x ∈ leaves t, ∃ items, checkBedLeaf l x = some items) (c qs qe : Nat) :
     ∃ fuel' blocks, searchCir .little (srcOf l) 24 c qs qe fuel' [off] [] = .ok blocks ∧
       goBedBlocks l c qs qe blocks =
         .ok ((((leaves t).filter fun x => x.lo.c = c).flatMap (bedItemsOf l)).filter (bedKeep qs qe)) := by
